@@ -2853,6 +2853,46 @@ def coverage_of(program_obj, op_names):
     return cov, unc, unm
 
 
+def operations_reaching(program_obj, targets, op_names):
+    """registry operations whose translated call graph reaches one of the functions `targets` (keys). Calls made
+    through containers of functions / callbacks are not edges of the graph, so an operation also counts when it
+    reaches any function of the MODULE a target lives in (second list)."""
+    fns = program_obj.w.fns
+    tset = set(targets) | {k.split("@")[0] for k in targets}
+    tmods = {k.split(":")[0] for k in tset}
+    memo = {}
+
+    def reach(k):
+        """(reaches a target, reaches a target's module)"""
+        seen, stack, hit, mod = set(), [k], False, False
+        while stack:
+            g = stack.pop()
+            if g in seen or g not in fns:
+                continue
+            seen.add(g)
+            if g in tset or g.split("@")[0] in tset:
+                hit = True
+            if g.split(":")[0] in tmods:
+                mod = True
+            stack.extend(fns[g].callees)
+        return hit, mod
+    direct, by_module = [], []
+    for op in op_names:
+        pats = entry_functions(op) or []
+        h = m = False
+        for pat in pats:
+            for k in fns:
+                if (k.endswith(pat) if pat.startswith("@") else k == pat):
+                    if k not in memo:
+                        memo[k] = reach(k)
+                    h, m = h or memo[k][0], m or memo[k][1]
+        if h:
+            direct.append(op)
+        elif m:
+            by_module.append(op)
+    return direct, by_module
+
+
 _LAST = {}
 
 
